@@ -110,7 +110,31 @@ ADD9 = {
  "C18": "Round 9: + def-use chains of 1-4 operations for 314 opcodes ending in the terminator, composite constants with 0-6 constituents for vector / struct / array types.",
  "C20": "Round 9: + id-relation files (rings of ids), and termination is now checked: every run of the tool has a 20 s wall-clock horizon (stdout / stderr to files).",
 }
+ADD10 = {
+ "C01": "Rounds 10-11: + many-function modules (2..40, 64, 100, 300 functions, one body-less) compared word for word, every unmodified seed also from a misaligned slice, dense large modules, typed-literal contexts completed into loadable modules (types / values declared inside earlier functions, chains, re-declared ids), strings giving a word count of exactly 65535.",
+ "C02": "Rounds 10-11: + string content zoo, every ordered pair of type ids <= 200, misaligned parses of every opcode, extension names in front of typed contexts, re-entrant parses (a consumer that parses from inside a callback).",
+ "C03": "Rounds 10-11: + header words (generator / bound / schema) x surplus-zero / surplus / dropped word, id-relation seeds, chains of typed values 1..40, re-declared ids, types declared after / inside functions, every opcode number parsed twice in a row on one thread.",
+ "C04": "Rounds 10-11: + assemble_into roomy / reused buffers, deep nesting (OpSpecConstantOp of OpSpecConstantOp up to 65531 levels), re-entrant parses.",
+ "C05": "Rounds 10-11: + every ext-inst number in every loader state behind six imports, the string zoo in every string-carrying module-level opcode in front of body-less / bodied functions, two live Loaders fed alternately, a Loader moved between threads after every prefix.",
+ "C06": "Rounds 10-11: + string suffixes (line ends, tabs, U+FFFD, quotes behind multi-byte characters), the function declared an entry point of each execution model first, 70 000-element operand lists, histories with headers first / bodies later, equal names on two functions selected by name, a second session through new_from_module, and the clause that no result id is carried twice.",
+ "C07": "Rounds 10-11: + extension names / capabilities / header versions in front of typed constants, FP-encoded float types, chains of typed values 1..40, a multi-byte character straddling every KiB of 64 KiB strings.",
+ "C08": "Rounds 10-11: + packed-key numbers (low 24 bits declared by ANY enumeration under every top byte), same-type ordered pairs, 5 000 / 70 000 repetitions then the whole range 0..8191 (on one thread), from_str at every alignment.",
+ "C09": "Rounds 10-11: + every declared opcode x every 16-bit number in both orders, the extended tables x 0..4095, a SAMPLED steady-state probe with 16 threads.",
+ "C10": "Rounds 10-11: + every non-numeric type-declaring opcode built from wide / odd scalars, alias ids differing in one bit (all 32), header versions and id bounds, chains of typed values 1..40, re-entrant parses.",
+ "C11": "Rounds 10-11: + a UTF-8 zoo of 43 ill- and well-formed sequences in four paddings, buffers holding the same long string three times.",
+ "C12": "Rounds 10-11: + phi, every call 300 times in a row after four prefixes, 70 000-element operand lists in the per-method sweep (13 contexts), equal names on two functions.",
+ "C13": "Rounds 10-11: + forward-declared pointers, insert_types_global_values at Begin / FromBegin / FromEnd, pop_instruction, continued builders in two depth-5 alphabets.",
+ "C14": "Rounds 10-11: + 24 kinds of consumer error payloads at every callback position, header words x corruptions, re-entrant parses.",
+ "C15": "Rounds 10-11: + strings of 262 100..300 000 bytes in every string-carrying opcode, entry-point interfaces naming variables of six storage classes under four versions, nth / skip / step_by / last / count of every traversal, assemble_into roomy / reused buffers.",
+ "C16": "Rounds 10-11: + every ordered pair of opcodes per predicate and across predicates, 300 repetitions; the Builder half under entry-point models, giant operand lists and (when the sources contain debug assertions) a build without them.",
+ "C17": "Rounds 10-11: + every id an instruction mentions also declared as a 64-bit type in front of it, literal parameters 0..4 with 1..8 surplus words, a non-UTF-8 string parameter.",
+ "C18": "Rounds 10-11: + lifted operations compared operand by operand in declaration order, blocks of 31..70 operations, mixed operand sources, ids spread by powers of two and hash multipliers, a good module after three kinds of failed conversion on one thread.",
+ "C19": "Rounds 10-11: + value types of 1..256 bytes with non-bytewise / never-true equality, the block storages of a lifted four-function module, an equality that takes a millisecond in a storage of 700 values.",
+ "C20": "Rounds 10-11: + the string zoo, deep nesting under a 256 KiB stack, foreign files (its own listing, 18 other formats), the same bytes through a named pipe.",
+}
 for pid, t in ADD.items():
+    C[pid]["level_claimed"]["text"] += " " + t
+for pid, t in ADD10.items():
     C[pid]["level_claimed"]["text"] += " " + t
 for pid, t in ADD9.items():
     C[pid]["level_claimed"]["text"] += " " + t
@@ -124,7 +148,7 @@ m = {"version": 1, "setup_cmd": "bin/setup",
         {"name": "xp", "path": "harness/vcheck/src/checks/c20.rs", "serves_properties": ["C20"], "kind_free_text": "process driver: runs the real rspirv-dis binary built from /repo on every file of a universe, 16 at a time"},
         {"name": "xb", "path": "harness/vcheck/src/{universe,mutate,acceptor,pcompare,disasm_ref}.rs, harness/vcalls", "serves_properties": ["C01", "C02", "C03", "C04", "C06", "C07", "C15", "C18"], "kind_free_text": "bounded-exhaustive generator of instruction shapes / modules / corruptions with reference encoder, acceptor and layout sorter"}],
      "checks": [C[p] for p in props if p in C],
-     "notes": "See DESIGN.md. known_findings.json lists genuine defects (all repaired so far by 'fix:' commits in /repo).",
+     "notes": "See DESIGN.md. known_findings.json lists the genuine defects found (F1-F8, F11 repaired by 'fix:' commits in /repo; F9, F10, F12 recorded as known findings). bin/check first runs bin/seams.py: for every environment variable the sources of /repo read and for debug_assert sites beyond the allow-listed pure one it runs the same check again with the variable set / in a build without debug assertions (nothing extra on the tree as it stands). A stack overflow of the checking process is reported as a violation; any other abnormal end is a machinery error (exit 2).",
      "not_applicable": [{"property_id": p, "reason": "check not built yet (work in progress; see DESIGN.md section 12)"} for p in props if p not in C]}
 for c in m["checks"]:
     if c["property_id"] == "C06":
